@@ -62,6 +62,13 @@ TEXT["C16"] = {
     "design_ref": "DESIGN.md section 3, C16",
 }
 
+TEXT["C04"] = {
+    "technique": "property-based testing (rapid) over execution histories; differential: shared compiled template vs freshly compiled template per execution",
+    "text": "Generated deterministic multi-file programs over every tag are compiled once and executed 2-6 times with contexts drawn from a pool (equal contexts recur; the same names carry different Go types), through randomly chosen entry points, with failing executions mixed in (injected function errors, invalid context keys, division by a zero variable), under both TrimBlocks/LStripBlocks settings. Each (output, error text) is compared with executing the same context on a freshly compiled template that is used exactly once. Exploration-level assurance; the static 'for all reachable functions' facet is not decided.",
+    "note": "Trusted: determinism of the generated programs and of the harness' context values. State that an execution leaves behind but that never influences a later output or error is invisible to this oracle.",
+    "design_ref": "DESIGN.md section 3, C04",
+}
+
 PENDING_REASON = "check not built yet in this build phase (DESIGN.md section 3 describes the planned PBT check); will be claimed once its quick tier is silent on the unchanged tree and kills its mutants"
 
 
